@@ -8,7 +8,10 @@ tokenize() itself on a complete table of pairs of token spellings (sa/lib_c19.py
 printer is asked about the token written immediately before, at every position of the output; R19.6: the clauses of
 C09 (R09.15/R09.18) on the white space around an invocation and of tokens that are merely passed on, re-issued;
 R19.7: the -E text reads back as itself through the text phases of tokenize_file() (sa/lib_c19rb.py): texts the preprocessor
-spells and tokenises itself (quoted strings, -D bodies) are fixed by them, and the phases are idempotent.
+spells and tokenises itself (quoted strings, -D bodies) are fixed by them, and the phases are idempotent;
+R19.8: the LINES of the -E text read back as the text they were (sa/lib_c19line.py): print_tokens on concrete token lists, its text
+through tokenize_file()'s phases and tokenize() again - a `#` left by macro replacement never begins a line (it would be a
+directive), a backslash token never ends one (it would be a splice), every other at_bol token keeps its line.
 """
 from ..interp import NoReturn, Infeasible, NeedChoice, Ctx, Interp, Obj, Sym, View, Cell, Term, Arr, VarPlace, ElemPlace, _Ref, _Continue, _Break, _Return, is_opaque
 from ..build import AnalysisBroken
@@ -35,6 +38,7 @@ def run(P, rep, tier):
                        'an expansion takes (the macro name\'s, also when it expands to nothing) and on tokens that are passed on, collected or spliced unchanged. '
                        'R19.7 interprets tokenize_file() and the text producers of preprocess.c (new_str_token, define_macro) on concrete strings up to their call of tokenize(): '
                        'what the preprocessor spells itself must be left alone by line splicing / \\u decoding when the -E text is read again, and those phases must be idempotent. '
+                       'R19.8 interprets print_tokens on concrete token lists and reads its text back through tokenize_file() and tokenize(): no token of the text comes back as the beginning of a directive, none is spliced away, tokens keep their lines. '
                        'Not decided: that no adjacent pair of spellings fuses.')
     rep.assumptions += ['tokenize() gives the first token of a buffer at_bol=true/has_space=false (checked on the empty buffer and by the fresh-token wiring obligations)',
                         'loops over token lists are analysed for 0..2 generic iterations (print_tokens: 0..3)', 'clang 14 typed AST']
@@ -283,6 +287,11 @@ def r_printer(P, rep):
     A = Agg(rep)
     where = '%s:%d' % (MU, u.fn(fn).line)
     protect = False
+    try:
+        from ..lib_c19line import introducers
+        intro = [b.decode('latin-1') for b in introducers(P)]
+    except AnalysisBroken:
+        intro = []
     nseen = {'bol': 0, 'space': 0, 'text': 0}
     for ctx, out in it.explore(fn, mk):
         if out[0] != 'ret':
@@ -328,8 +337,11 @@ def r_printer(P, rep):
                 # its characters) may keep it on the previous line, after a blank: a `#` that macro replacement left must not
                 # begin a line. Which spellings it does that for is decided on concrete lists by R19.8 (every spelling of the
                 # tokenizer's table other than the directive introducer keeps its line).
+                # (a comparison with a string constant counts only when the constant is the directive introducer; a helper of
+                # the unit that reads the spelling itself is judged by R19.8's table)
                 kept = '\n' not in sep and ' ' in sep and (
-                    any(c[0] == 'call' and c[1] in helpers and c[1] not in stream and c[1] not in pairh and any(as_obj(it, a) is T for a in c[2]) for c in ctx.events)
+                    any(c[0] == 'call' and c[1] in helpers and c[1] not in stream and c[1] not in pairh and any(as_obj(it, a) is T for a in c[2])
+                        and (c[1] in u.functions or any(isinstance(a, str) and a in intro for a in c[2])) for c in ctx.events)
                     or _spelling_constrained(it, u, ctx, (T,)))
                 A.ob('R19.1', '%s:%s:newline-before-bol-token' % (MU, fn), '\n' in sep or kept,
                      'a token that starts a line (at_bol%s) is written without a preceding newline: directives and line structure of the -E output are lost, and the last token of the previous line can fuse with it' % ('' if ab_must else ' not even consulted'),
